@@ -265,4 +265,23 @@ Proof.
   rewrite (run_returns_fresh_values w parB Hnp inputsB Hwf rk Hdag sB idB ks mB HrB B1 B2 B3 B4).
   apply map_ext. intros k. f_equal. apply freshv_ext. assumption.
 Qed.
+
+(* The same with inputs that agree only where the Run can look: P holds of the requested queries and is closed
+   under the dependencies the queries have on A's current inputs.  Inputs outside P (files no requested query
+   transitively reads) may differ arbitrarily - an edit there changes no result, and the brand-new executor need
+   only be given the part of the workspace the queries read. *)
+Theorem incremental_eq_batch_local parA parB inputsA inputsB sA sB idA idB ks mA mB (P : key -> Prop) :
+  reach w parA inputsA sA -> reach w parB inputsB sB ->
+  (forall k, P k -> inp sB k = inp sA k /\ forall d, In d (flatd w (inp sA k) k) -> P d) ->
+  (forall k, In k ks -> P k) ->
+  idA < nthr sA -> tkey (thr sA idA) = None -> tpc (thr sA idA) = PRelease mA -> groups w sA idA = [ks] ->
+  idB < nthr sB -> tkey (thr sB idB) = None -> tpc (thr sB idB) = PRelease mB -> groups w sB idB = [ks] ->
+  tacc (thr sA idA) = tacc (thr sB idB).
+Proof.
+  intros HrA HrB HP Hks A1 A2 A3 A4 B1 B2 B3 B4.
+  rewrite (run_returns_fresh_values w parA Hnp inputsA Hwf rk Hdag sA idA ks mA HrA A1 A2 A3 A4).
+  rewrite (run_returns_fresh_values w parB Hnp inputsB Hwf rk Hdag sB idB ks mB HrB B1 B2 B3 B4).
+  apply map_ext_in. intros k Hk. f_equal. symmetry.
+  apply (freshv_local w rk Hdag (inp sA) (inp sB) P HP k (Hks k Hk)).
+Qed.
 End C35.
